@@ -395,7 +395,11 @@ class LineRunner:
         return bool(new) and new[-1][0] == 'data' and not any(
             r[0] == 'status' for r in new)
 
+    answers: list = []      # scripted answers to continuation requests
+
     def _answer(self, raw, out):
+        if self.answers:
+            return self.answers.pop(0)
         up = raw.upper()
         if self.proto != 'imap':
             return b'"*"\r\n'
